@@ -65,7 +65,8 @@ def __value_as_dict(value):
 
 
 def __value_as_list(value):
-    return ArrayValue(values=[convert_value(val) for val in value])
+    # a sequence attribute can contain None (for values that could not be cleaned), we keep the position as an empty value
+    return ArrayValue(values=[AnyValue() if val is None else convert_value(val) for val in value])
 
 
 def convert_resource(resource):
